@@ -60,7 +60,9 @@ def verify_property(prop: str, tier: str, jobs: int, only=None, verbose=False):
             except Exception as e:  # pylint: disable=broad-except
                 if ref in roots:
                     raise
-    budget = 120 if tier == "quick" else 900
+    # per (contract, case) exploration budget: a guard against run-away exploration, sized several times above
+    # the slowest case (snap_affine: ~110 s on this machine) so that a slower or busier machine does not flip a verdict
+    budget = 600 if tier == "quick" else 1800
     os.environ["PYVC_TIER"] = tier  # read by the recorder (cvc5 cross-check) in the forked workers
     todo = list(roots)
     seen = set()
